@@ -580,18 +580,19 @@ Proof.
   destruct (p_tracker (d_p s)); [contradiction|]. reflexivity.
 Qed.
 
-(* expiry below (or beyond) the limit: the call is exactly a re-issue *)
+(* expiry below (or beyond) the limit, transaction not cancelled: the call is exactly a re-issue *)
 Lemma dst_nak_reissue : forall s r eos t,
-  p_deferred (d_p s) = true -> p_rcfg (d_p s) = Some r -> p_file_size_eof (d_p s) = Some eos ->
+  p_deferred (d_p s) = true -> p_disp (d_p s) <> DISP_CANCELED -> p_rcfg (d_p s) = Some r -> p_file_size_eof (d_p s) = Some eos ->
   (p_tracker (d_p s) <> [] \/ p_md_missing (d_p s) = true) ->
   p_proc_timer (d_p s) = Some t -> timed_out (now_d s) t = true -> p_nak_counter (d_p s) + 1 <> r_nak_limit r ->
   deferred_lost_segment_handling s = nak_reissue r eos s.
 Proof.
-  intros s r eos t Hd Hr He Hmiss Ht Hto Hlim.
+  intros s r eos t Hd Hnc Hr He Hmiss Ht Hto Hlim.
+  assert (p_disp (d_p s) =? DISP_CANCELED = false) as Hdc by (apply Z.eqb_neq; exact Hnc).
   pose proof (nak_missing_cond s Hmiss) as Hz. unfold now_d in Hto.
   assert (p_nak_counter (d_p s) + 1 =? r_nak_limit r = false) as Heq by (apply Z.eqb_neq; exact Hlim).
   unfold deferred_lost_segment_handling, rcfg_or_assert, now, gp, gets, bind, ret.
-  rewrite Hd. change (negb true) with false. cbv beta iota. rewrite Hr. cbv beta iota. rewrite He. cbv beta iota.
+  rewrite Hd. change (negb true) with false. cbv beta iota. rewrite Hdc. cbv beta iota. rewrite Hr. cbv beta iota. rewrite He. cbv beta iota.
   rewrite Hz. cbv beta iota. rewrite Ht. cbv beta iota. rewrite Hto. change (negb true) with false. cbv beta iota.
   rewrite Heq. change (negb false && false) with false. cbv beta iota.
   reflexivity.
@@ -599,14 +600,15 @@ Qed.
 
 (* expiry N, handler of NAK Limit Reached not IGNORE: the fault is declared and the call ends there (its effect is C14's) *)
 Lemma dst_nak_limit : forall s r eos t,
-  p_deferred (d_p s) = true -> p_rcfg (d_p s) = Some r -> p_file_size_eof (d_p s) = Some eos ->
+  p_deferred (d_p s) = true -> p_disp (d_p s) <> DISP_CANCELED -> p_rcfg (d_p s) = Some r -> p_file_size_eof (d_p s) = Some eos ->
   (p_tracker (d_p s) <> [] \/ p_md_missing (d_p s) = true) ->
   p_proc_timer (d_p s) = Some t -> timed_out (now_d s) t = true -> p_nak_counter (d_p s) + 1 = r_nak_limit r ->
   get_fault_handler (l_faults (d_cfg s)) C_NAK_LIMIT <> Some FH_IGNORE ->
   deferred_lost_segment_handling s =
     (fst (declare_fault C_NAK_LIMIT s), match snd (declare_fault C_NAK_LIMIT s) with Ok _ => Ok tt | Err e => Err e end).
 Proof.
-  intros s r eos t Hd Hr He Hmiss Ht Hto Hlim Hni.
+  intros s r eos t Hd Hnc Hr He Hmiss Ht Hto Hlim Hni.
+  assert (p_disp (d_p s) =? DISP_CANCELED = false) as Hdc by (apply Z.eqb_neq; exact Hnc).
   pose proof (nak_missing_cond s Hmiss) as Hz. unfold now_d in Hto.
   assert (p_nak_counter (d_p s) + 1 =? r_nak_limit r = true) as Heq by (apply Z.eqb_eq; exact Hlim).
   assert (forall s' x, declare_fault C_NAK_LIMIT s = (s', Ok x) -> negb (x =? FH_IGNORE) = true) as Hx.
@@ -618,7 +620,7 @@ Proof.
       (destruct (fh =? FH_ABANDON); cbn in Hdf; [discriminate|]);
       inversion Hdf; subst x; apply negb_true_iff, Z.eqb_neq; exact Hne. }
   unfold deferred_lost_segment_handling, rcfg_or_assert, now, gp, gets, bind, ret.
-  rewrite Hd. change (negb true) with false. cbv beta iota. rewrite Hr. cbv beta iota. rewrite He. cbv beta iota.
+  rewrite Hd. change (negb true) with false. cbv beta iota. rewrite Hdc. cbv beta iota. rewrite Hr. cbv beta iota. rewrite He. cbv beta iota.
   rewrite Hz. cbv beta iota. rewrite Ht. cbv beta iota. rewrite Hto. change (negb true) with false. cbv beta iota.
   rewrite Heq. change (negb false && true) with true. cbv beta iota.
   destruct (declare_fault C_NAK_LIMIT s) as [s' [x|e]] eqn:Hdf; [|reflexivity].
@@ -628,7 +630,7 @@ Qed.
 (* expiry N, handler IGNORE (F22 repair): exactly one IGNORE callback, then the call is exactly a re-issue: the NAK
    sequence again, counter N, timer restarted (so the limit test fails at every later expiry) *)
 Lemma dst_nak_limit_ignored_continues : forall s r eos t a b,
-  p_deferred (d_p s) = true -> p_rcfg (d_p s) = Some r -> p_file_size_eof (d_p s) = Some eos ->
+  p_deferred (d_p s) = true -> p_disp (d_p s) <> DISP_CANCELED -> p_rcfg (d_p s) = Some r -> p_file_size_eof (d_p s) = Some eos ->
   (p_tracker (d_p s) <> [] \/ p_md_missing (d_p s) = true) ->
   p_proc_timer (d_p s) = Some t -> timed_out (now_d s) t = true -> p_nak_counter (d_p s) + 1 = r_nak_limit r ->
   get_fault_handler (l_faults (d_cfg s)) C_NAK_LIMIT = Some FH_IGNORE -> p_tid (d_p s) = Some (a, b) ->
@@ -642,14 +644,15 @@ Lemma dst_nak_limit_ignored_continues : forall s r eos t a b,
                                   <| p_proc_timer := Some (now_d s, snd t) |>) |>, Ok tt)) /\
   (max_seg_reqs (r_max_packet r) (p_conf (d_p s)) = None -> deferred_lost_segment_handling s = (s1, Err E_VALUE)).
 Proof.
-  intros s r eos t a b Hd Hr He Hmiss Ht Hto Hlim Hfh Htid s1.
+  intros s r eos t a b Hd Hnc Hr He Hmiss Ht Hto Hlim Hfh Htid s1.
+  assert (p_disp (d_p s) =? DISP_CANCELED = false) as Hdc by (apply Z.eqb_neq; exact Hnc).
   assert (deferred_lost_segment_handling s = nak_reissue r eos s1) as Heqn.
   { pose proof (nak_missing_cond s Hmiss) as Hz. unfold now_d in Hto.
     assert (p_nak_counter (d_p s) + 1 =? r_nak_limit r = true) as Heq by (apply Z.eqb_eq; exact Hlim).
     assert (declare_fault C_NAK_LIMIT s = (s1, Ok FH_IGNORE)) as Hdf.
     { unfold declare_fault, gp, gets, bind. rewrite Htid, Hfh. reflexivity. }
     unfold deferred_lost_segment_handling, rcfg_or_assert, now, gp, gets, bind, ret.
-    rewrite Hd. change (negb true) with false. cbv beta iota. rewrite Hr. cbv beta iota. rewrite He. cbv beta iota.
+    rewrite Hd. change (negb true) with false. cbv beta iota. rewrite Hdc. cbv beta iota. rewrite Hr. cbv beta iota. rewrite He. cbv beta iota.
     rewrite Hz. cbv beta iota. rewrite Ht. cbv beta iota. rewrite Hto. change (negb true) with false. cbv beta iota.
     rewrite Heq. change (negb false && true) with true. cbv beta iota.
     rewrite Hdf. reflexivity. }
@@ -661,17 +664,67 @@ Qed.
 (* consequently the fault is declared once: at every expiry with the counter at or beyond the limit the call is a
    re-issue and logs nothing *)
 Lemma dst_nak_limit_not_declared_again : forall s r eos t,
-  p_deferred (d_p s) = true -> p_rcfg (d_p s) = Some r -> p_file_size_eof (d_p s) = Some eos ->
+  p_deferred (d_p s) = true -> p_disp (d_p s) <> DISP_CANCELED -> p_rcfg (d_p s) = Some r -> p_file_size_eof (d_p s) = Some eos ->
   (p_tracker (d_p s) <> [] \/ p_md_missing (d_p s) = true) ->
   p_proc_timer (d_p s) = Some t -> timed_out (now_d s) t = true -> r_nak_limit r <= p_nak_counter (d_p s) ->
   deferred_lost_segment_handling s = nak_reissue r eos s /\
   log_d (fst (deferred_lost_segment_handling s)) = log_d s.
 Proof.
-  intros s r eos t Hd Hr He Hmiss Ht Hto Hge.
+  intros s r eos t Hd Hnc Hr He Hmiss Ht Hto Hge.
   assert (deferred_lost_segment_handling s = nak_reissue r eos s) as Heqn
     by (eapply dst_nak_reissue; try eassumption; lia).
   split; [exact Heqn|]. rewrite Heqn. apply nak_reissue_log.
 Qed.
+
+(* ---- F35 repair: the deferred procedure of a cancelled transaction does nothing (whatever the timer, the counter and
+   the tracker say): no NAK, no limit fault, no checksum verification; the cancel condition stands.  Before the repair
+   the FSM steps WAITING_FOR_MISSING_DATA / WAITING_FOR_METADATA ran the whole procedure after a PDU whose handling had
+   cancelled the transaction; with the tracker emptied by the same PDU the completion overwrote the cancel condition
+   with No Error. *)
+Lemma dst_deferred_cancelled : forall s,
+  p_disp (d_p s) = DISP_CANCELED -> deferred_lost_segment_handling s = (s, Ok tt).
+Proof.
+  intros s Hc. unfold deferred_lost_segment_handling, gp, gets, bind, ret. cbv beta iota.
+  destruct (p_deferred (d_p s)); cbv beta iota delta [negb]; [|reflexivity]. rewrite Hc. reflexivity.
+Qed.
+
+(* the lemmas above (dst_nak_reissue, dst_nak_limit, dst_nak_limit_ignored_continues, dst_nak_limit_not_declared_again)
+   without `p_disp (d_p s) <> DISP_CANCELED` (their statements up to wave 7) are false after the repair: a waiting
+   state at expiry N whose transaction is marked cancelled satisfies every other hypothesis, and the call does nothing
+   instead of declaring NAK Limit Reached.  (Within the FSM such a state does not occur at an expiry: every PDU that
+   cancels is followed by reset_nak_activity_parameters, and a cancelled transaction leaves the waiting steps.) *)
+Module NakCounterExamples.
+  Definition nx_r : rcfg := mkRcfg 1 2 (Some 4) 64 false false ACKED CK_NULL 1000 2 2 false false 1000 1.
+  Definition nx_cfg : lcfg := mkLcfg 2 2 false false false true default_fault_table 1000 [nx_r].
+  Definition nx_h : hdr := mkHdr TOWARDS_RECEIVER ACKED false false 1 2 2 0 2.
+  Definition nx_sm (p : option pdu) (s : dst) : dst := fst (Dest.state_machine p s).
+  Definition nx_gn (s : dst) : dst := fst (Dest.get_next_packet s).
+  (* Metadata (size 10), File Data (0,4), EOF (no error, 10), ACK retrieved, poll (NAK (4,10)) retrieved; NAK interval later *)
+  Definition nx_s3 : dst :=
+    nx_gn (nx_sm None (nx_gn (nx_sm (Some (PEof nx_h C_NO_ERROR [0; 0; 0; 0] 10 None))
+      (nx_sm (Some (PFileData nx_h 0 [1; 2; 3; 4]))
+         (nx_sm (Some (PMetadata nx_h false CK_NULL 10 (Some ([7], [8])) [])) (dst_init nx_cfg))))))
+    <| d_env ::= (fun en => en <| e_now := 1000 |>) |>.
+  Definition nx_s : dst := nx_s3 <| d_p ::= (fun p => p <| p_disp := DISP_CANCELED |>) |>.
+  Example not_cancelled_needed :
+    p_deferred (d_p nx_s) = true /\ p_rcfg (d_p nx_s) = Some nx_r /\ p_file_size_eof (d_p nx_s) = Some 10 /\
+    (p_tracker (d_p nx_s) <> [] \/ p_md_missing (d_p nx_s) = true) /\
+    p_proc_timer (d_p nx_s) = Some (0, 1000) /\ timed_out (now_d nx_s) (0, 1000) = true /\
+    p_nak_counter (d_p nx_s) + 1 = r_nak_limit nx_r /\
+    get_fault_handler (l_faults (d_cfg nx_s)) C_NAK_LIMIT = Some FH_CANCEL /\
+    p_disp (d_p nx_s) = DISP_CANCELED /\
+    deferred_lost_segment_handling nx_s = (nx_s, Ok tt) /\
+    log_d (fst (declare_fault C_NAK_LIMIT nx_s)) = EvFault FH_CANCEL 1 0 C_NAK_LIMIT 4 :: log_d nx_s /\
+    (* the same state, not cancelled: the fault is declared *)
+    log_d (fst (deferred_lost_segment_handling nx_s3)) = EvFault FH_CANCEL 1 0 C_NAK_LIMIT 4 :: log_d nx_s3.
+  Proof.
+    split; [vm_compute; reflexivity|]. split; [vm_compute; reflexivity|]. split; [vm_compute; reflexivity|].
+    split; [left; vm_compute; discriminate|].
+    split; [vm_compute; reflexivity|]. split; [vm_compute; reflexivity|]. split; [vm_compute; reflexivity|].
+    split; [vm_compute; reflexivity|]. split; [reflexivity|].
+    split; [apply dst_deferred_cancelled; reflexivity|]. split; vm_compute; reflexivity.
+  Qed.
+End NakCounterExamples.
 
 Lemma dst_nak_progress_resets : forall s t,
   p_proc_timer (d_p s) = Some t ->
